@@ -4,7 +4,7 @@
 //! `collect_par(None, Some(partitions))`) and, for arbitrary merge shapes, the REAL
 //! `PriorityReservoir` combiner (`create / add_input / merge / finish / build_from_group`).
 //!
-//! kinds (seed = [hi, lo] 32-bit halves of the u64 seed; mode = -1 sequential, p >= 0 = parallel
+//! kinds (k = integer or [hi, lo] halves for huge values; seed = [hi, lo] 32-bit halves of the u64 seed; mode = -1 sequential, p >= 0 = parallel
 //! with `partitions = Some(p)`)
 //!   "g":    in = [entry, k, seed, mode, data]         entry 0 = sample_reservoir_vec (output: list of
 //!           samples, as collected), 1 = sample_reservoir (output: the flattened sample).
@@ -35,6 +35,18 @@ fn pairs(v: &Value) -> Vec<(i64, i64)> {
 fn seed_of(v: &Value) -> u64 {
     (v[0].as_u64().unwrap() << 32) | v[1].as_u64().unwrap()
 }
+/// k: plain integer, or [hi, lo] 32-bit halves (values >= 2^31, e.g. usize::MAX)
+fn k_of(v: &Value) -> usize {
+    match v.as_u64() {
+        Some(k) => k as usize,
+        None => ((v[0].as_u64().unwrap() << 32) | v[1].as_u64().unwrap()) as usize,
+    }
+}
+fn k_json(k: usize) -> Value {
+    if (k as u64) < (1u64 << 31) { json!(k) } else { json!([(k as u64) >> 32, (k as u64) & 0xffff_ffff]) }
+}
+const HUGE_K: [usize; 6] =
+    [usize::MAX, 1usize << 63, (1usize << 63) + 1, (1usize << 63) - 1, 1usize << 62, 1_000_000_000];
 fn seed_json(s: u64) -> Value {
     json!([s >> 32, s & 0xffff_ffff])
 }
@@ -96,7 +108,7 @@ where
 fn run(kind: &str, input: &Value) -> Value {
     match kind {
         "g" | "k" => {
-            let (entry, k) = (input[0].as_i64().unwrap(), input[1].as_u64().unwrap() as usize);
+            let (entry, k) = (input[0].as_i64().unwrap(), k_of(&input[1]));
             let (seed, mode) = (seed_of(&input[2]), input[3].as_i64().unwrap());
             let once = || {
                 if kind == "g" {
@@ -111,7 +123,7 @@ fn run(kind: &str, input: &Value) -> Value {
             }
         }
         "cmpg" | "cmpk" => {
-            let (entry, k) = (input[0].as_i64().unwrap(), input[1].as_u64().unwrap() as usize);
+            let (entry, k) = (input[0].as_i64().unwrap(), k_of(&input[1]));
             let seed = seed_of(&input[2]);
             let (m1, m2) = (input[3].as_i64().unwrap(), input[4].as_i64().unwrap());
             let one = |m: i64| {
@@ -127,7 +139,7 @@ fn run(kind: &str, input: &Value) -> Value {
             }
         }
         "expr" => {
-            let c = PriorityReservoir::<i64>::new(input[0].as_u64().unwrap() as usize, seed_of(&input[1]));
+            let c = PriorityReservoir::<i64>::new(k_of(&input[0]), seed_of(&input[1]));
             let acc = eval(&c, &input[2]);
             ok(json!(c.finish(acc)))
         }
@@ -234,17 +246,39 @@ fn generate(seed: u64, tier: Tier, em: &mut Emitter) {
         }
     }
 
+    // 2b. "take everything" sample sizes: usize::MAX, 2^63, 2^63 +- 1, 2^62, 10^9 on all four entry
+    //     points, sequential and parallel (expected: all n elements, per key)
+    for &hk in &HUGE_K {
+        for n in [0usize, 1, 2, 5, 12] {
+            for mode in [-1i64, 0, 1, 2, 3, n as i64, n as i64 + 1] {
+                for (si, &s) in [42u64, u64::MAX].iter().enumerate() {
+                    let data = pattern((n + si) as u64 % 2, n);
+                    let kd = keyed_of(&data, 3);
+                    for entry in 0..2 {
+                        em.case("g", json!([entry, k_json(hk), seed_json(s), mode, data]), n >= 2, &["huge-k"]);
+                        em.case("k", json!([entry, k_json(hk), seed_json(s), mode, jpairs(&kd)]), n >= 2, &["huge-k"]);
+                    }
+                }
+            }
+        }
+        let d7: Vec<i64> = (0..7).collect();
+        em.case("cmpg", json!([0, k_json(hk), seed_json(42), -1, 3, d7]), true, &["huge-k", "cmp"]);
+        em.case("cmpk", json!([0, k_json(hk), seed_json(42), -1, 3, jpairs(&keyed_of(&d7, 2))]), true, &["huge-k", "cmp"]);
+        em.case("expr", json!([k_json(hk), seed_json(5), [2, [3, [1, 2, 3]], [1, [2, [0], [3, [4, 5]]], 6]]]), true, &["huge-k", "expr"]);
+    }
+
     // 3. seeded random, n up to 40 (thorough: 120)
     let mut rng = SplitMix64::new(seed ^ 0xC14);
     let nrand = if thorough { 20000 } else { 2600 };
     let nlim = if thorough { 120 } else { 40 };
     for i in 0..nrand {
         let n = if rng.chance(1, 8) { rng.below(4) } else { rng.below(nlim + 1) } as usize;
-        let k = match rng.below(6) {
+        let k = match rng.below(7) {
             0 => 0,
             1 => n,
             2 => n + 1,
             3 => 1,
+            4 => *rng.pick(&HUGE_K),
             _ => rng.below(n as u64 + 2) as usize,
         };
         let s = match rng.below(8) {
@@ -266,19 +300,19 @@ fn generate(seed: u64, tier: Tier, em: &mut Emitter) {
         let entry = rng.below(2) as i64;
         let nt = nontrivial(n, k, mode);
         match i % 5 {
-            0 | 1 => em.case("g", json!([entry, k, seed_json(s), mode, data]), nt, &["random"]),
+            0 | 1 => em.case("g", json!([entry, k_json(k), seed_json(s), mode, data]), nt, &["random"]),
             2 | 3 => {
                 let nkeys = *rng.pick(&[1i64, 2, 3, 5]);
                 let kd: Vec<(i64, i64)> =
                     data.iter().map(|&v| (rng.range(0, nkeys - 1), v)).collect();
-                em.case("k", json!([entry, k, seed_json(s), mode, jpairs(&kd)]), nt, &["random"]);
+                em.case("k", json!([entry, k_json(k), seed_json(s), mode, jpairs(&kd)]), nt, &["random"]);
             }
             _ => {
                 // direct combiner: arbitrary merge shapes incl. empty accumulators
                 let mut budget = 30i64;
                 let e = gen_expr(&mut rng, 5, &mut budget);
-                let kk = rng.below(8) as usize;
-                em.case("expr", json!([kk, seed_json(s), e]), kk >= 1, &["random", "expr"]);
+                let kk = if rng.chance(1, 5) { *rng.pick(&HUGE_K) } else { rng.below(8) as usize };
+                em.case("expr", json!([k_json(kk), seed_json(s), e]), kk >= 1, &["random", "expr"]);
             }
         }
     }
@@ -289,10 +323,11 @@ fn generate(seed: u64, tier: Tier, em: &mut Emitter) {
     let ncmp = if thorough { 4000 } else { 700 };
     for i in 0..ncmp {
         let n = rng.below(if i % 3 == 0 { 6 } else { 31 }) as usize;
-        let k = match rng.below(5) {
+        let k = match rng.below(6) {
             0 => 0,
             1 => n,
             2 => n + 1,
+            3 => *rng.pick(&HUGE_K),
             _ => rng.below(n as u64 + 2) as usize,
         };
         let s = if rng.chance(1, 4) { *rng.pick(&SEEDS) } else { rng.next_u64() };
@@ -303,15 +338,15 @@ fn generate(seed: u64, tier: Tier, em: &mut Emitter) {
         let data: Vec<i64> = (0..n).map(|_| rng.range(0, range)).collect();
         let nt = n >= 2 && k >= 1;
         if i % 2 == 0 {
-            em.case("cmpg", json!([entry, k, seed_json(s), m1, m2, data]), nt, &["cmp"]);
-            em.case("g", json!([entry, k, seed_json(s), m1, data]), nt, &["cmp-side"]);
-            em.case("g", json!([entry, k, seed_json(s), m2, data]), nt, &["cmp-side"]);
+            em.case("cmpg", json!([entry, k_json(k), seed_json(s), m1, m2, data]), nt, &["cmp"]);
+            em.case("g", json!([entry, k_json(k), seed_json(s), m1, data]), nt, &["cmp-side"]);
+            em.case("g", json!([entry, k_json(k), seed_json(s), m2, data]), nt, &["cmp-side"]);
         } else {
             let nkeys = *rng.pick(&[1i64, 2, 3]);
             let kd: Vec<(i64, i64)> = data.iter().map(|&v| (rng.range(0, nkeys - 1), v)).collect();
-            em.case("cmpk", json!([entry, k, seed_json(s), m1, m2, jpairs(&kd)]), nt, &["cmp"]);
-            em.case("k", json!([entry, k, seed_json(s), m1, jpairs(&kd)]), nt, &["cmp-side"]);
-            em.case("k", json!([entry, k, seed_json(s), m2, jpairs(&kd)]), nt, &["cmp-side"]);
+            em.case("cmpk", json!([entry, k_json(k), seed_json(s), m1, m2, jpairs(&kd)]), nt, &["cmp"]);
+            em.case("k", json!([entry, k_json(k), seed_json(s), m1, jpairs(&kd)]), nt, &["cmp-side"]);
+            em.case("k", json!([entry, k_json(k), seed_json(s), m2, jpairs(&kd)]), nt, &["cmp-side"]);
         }
     }
 }
